@@ -75,6 +75,32 @@ pub fn tbc_kind() -> AddKind<tbc_header::HeaderCrypto> {
     AddKind { prop: "c08", period: 20, model_key: |k| tbc_key(k).to_vec(), pair: objs::tbc_pair }
 }
 
+/// Objects of the *other* expansions are created and used on this thread in between (the order in which modules are used
+/// in a process must not matter).
+pub fn other_module_noise(rng: &mut Rng) {
+    let k: [u8; 40] = rng.arr();
+    let nn = 1 + rng.below(9) as usize;
+    let mut d = rng.bytes(nn);
+    match rng.below(3) {
+        0 => {
+            let (mut c, mut s) = objs::vanilla_pair(k);
+            c.encrypt(&mut d);
+            s.decrypt(&mut d);
+        }
+        1 => {
+            let (mut c, mut s) = objs::tbc_pair(k);
+            c.encrypt(&mut d);
+            s.decrypt(&mut d);
+        }
+        _ => {
+            let (mut c, mut s) = objs::wrath_pair(k);
+            c.encrypt(&mut d);
+            s.decrypt(&mut d);
+            let _ = s.encrypt_server_header(0x8123, 0x1ee).len();
+        }
+    }
+}
+
 /// Keys made of the same bytes / words as `base` in another order, and keys whose differences cancel under XOR or
 /// addition (a fingerprint or folded comparison of the key cannot tell them apart).
 pub fn permuted_keys(base: &[u8; 40], rng: &mut Rng) -> Vec<[u8; 40]> {
@@ -371,6 +397,23 @@ distinct (key class, length class) stream cells",
                     }
                 }
             }
+            // more than 2^32 bytes through one connection (thorough tier, one key)
+            if tier == "thorough" && which == 0 && okay {
+                let block = 64usize << 20;
+                let mut done: u64 = 0;
+                while done < (1u64 << 32) + (3 * block as u64) && okay {
+                    let plain = rng.bytes(block);
+                    let ps = rng.next();
+                    okay = add_stream(kind_ref, &mut rep, &k, &plain, &mut client, &mut server, &mut model, ps, "beyond_2^32_bytes");
+                    done += block as u64;
+                    rep.ev(1);
+                }
+                rep.count("bytes_through_one_connection_max", produced + done);
+                if okay {
+                    rep.note("one connection carried more than 2^32 bytes in one direction".to_string());
+                    rep.cell(&[9, 32]);
+                }
+            }
             // the same connection also runs server -> client
             let back: Vec<u8> = rng.bytes(5000);
             let mut m2 = ModelAdd::new(&mkey);
@@ -412,6 +455,10 @@ distinct (key class, length class) stream cells",
                 _ => (rng.arr(), 3),
             };
             let mkey = (kind_ref.model_key)(&k);
+            if nkeys >= 100 && rng.chance(1, 4) {
+                other_module_noise(&mut rng);
+                rep.count("other_module_noise", 1);
+            }
             let (mut client, mut server) = match guard(|| (kind_ref.pair)(k)) {
                 Ok(p) => p,
                 Err(e) => {
@@ -431,6 +478,11 @@ distinct (key class, length class) stream cells",
                     _ => rng.below(if nkeys < 100 { 260 } else { 20000 }) as usize,
                 };
                 let plain = rng.bytes(len);
+                if nkeys >= 100 && rng.chance(1, 6) {
+                    // objects of the other expansions are created and used while this connection is alive
+                    other_module_noise(&mut rng);
+                    rep.count("other_module_noise_mid_connection", 1);
+                }
                 let lclass = if len < 8 { 0 } else if len <= period { 1 } else if len < 257 { 2 } else { 3 };
                 let ok = if rng.chance(1, 2) {
                     add_stream(kind_ref, &mut rep, &k, &plain, &mut client, &mut server, &mut m_c2s, rng.next(), "random_key")
@@ -486,6 +538,39 @@ distinct (key class, length class) stream cells",
                 rep.ev(2);
                 rep.count("related_key_objects", 1);
                 rep.cell(&[7, 7]);
+            }
+        }
+        // one connection used through very many tiny calls (more than 2^16 calls per direction)
+        if sh % 16 == 3 && nkeys >= 1000 {
+            let k: [u8; 40] = rng.arr();
+            let mkey = (kind_ref.model_key)(&k);
+            let (mut client, mut server) = (kind_ref.pair)(k);
+            let mut m = ModelAdd::new(&mkey);
+            let calls = 70_000usize;
+            let mut bad = false;
+            for c in 0..calls {
+                let n = 1 + rng.below(6) as usize;
+                let plain = rng.bytes(n);
+                let mut want = plain.clone();
+                m.enc(&mut want);
+                let mut wire = plain.clone();
+                client.enc(&mut wire);
+                let mut back = wire.clone();
+                server.dec(&mut back);
+                if wire != want || back != plain {
+                    rep.violation(
+                        &format!("{}:many_small_calls", kind_ref.prop),
+                        format!("call number {} of {} bytes on one long-lived connection: ciphertext or recovered plaintext wrong (key {})", c, n, hex(&k)),
+                        format!("stream {} {} {}", hex(&k), c, n),
+                    );
+                    bad = true;
+                    break;
+                }
+            }
+            rep.ev(1);
+            if !bad {
+                rep.count("connections_with_70000_small_calls", 1);
+                rep.cell(&[8, 8]);
             }
         }
         // long-running connections
@@ -626,7 +711,10 @@ fn wrath_connection(rep: &mut Rep, k: [u8; 40], rng: &mut Rng, total_len: usize,
     let mut off_s = 0u64;
     let mut left = total_len;
     while left > 0 {
-        let len = (1 + rng.below(if total_len > 1000 { 40000 } else { 300 }) as usize).min(left);
+        if total_len < 100_000 && rng.chance(1, 8) {
+            other_module_noise(rng);
+        }
+        let len = (1 + rng.below(if total_len > (1 << 30) { 32 << 20 } else if total_len > 1000 { 40000 } else { 300 }) as usize).min(left);
         left -= len;
         let plain = rng.bytes(len);
         let ps = rng.next();
@@ -673,6 +761,10 @@ distinct = (key class, directions crossing 256 / 65536 bytes) cells + session ke
                 _ => (rng.arr::<40>(), 2),
             };
             let l = if i % 4 == 0 { len * 2 } else { rng.below(3000) as usize + 1 };
+            if nkeys >= 100 && rng.chance(1, 4) {
+                other_module_noise(&mut rng);
+                rep.count("other_module_noise", 1);
+            }
             wrath_connection(&mut rep, k, &mut rng, l, class);
             rep.count("session_keys", 1);
             rep.distinct_extra += 1;
@@ -708,10 +800,62 @@ distinct = (key class, directions crossing 256 / 65536 bytes) cells + session ke
                 rep.count("related_key_objects", 1);
             }
         }
+        if sh % 16 == 5 && nkeys >= 1000 {
+            let k = rng.arr::<40>();
+            let (mut client, mut server) = objs::wrath_pair(k);
+            let mut m = wrath_model(&WRATH_S, &k);
+            let mut m2 = wrath_model(&WRATH_R, &k);
+            let mut pending: Vec<u8> = Vec::new();
+            let mut bad = false;
+            for c in 0..70_000usize {
+                let n = 1 + rng.below(6) as usize;
+                let plain = rng.bytes(n);
+                let mut want = plain.clone();
+                m.xor(&mut want);
+                let mut wire = plain.clone();
+                client.encrypt(&mut wire);
+                if wire != want {
+                    rep.violation("c09:many_small_calls:c2s", format!("call number {} on one long-lived connection: wire bytes differ from the model (key {})", c, hex(&k)), format!("stream {} {} {} c2s", hex(&k), c, n));
+                    bad = true;
+                    break;
+                }
+                // the receiver decrypts a backlog of several messages in one call
+                pending.extend_from_slice(&wire);
+                if c % 7 == 6 {
+                    server.decrypt(&mut pending);
+                    pending.clear();
+                }
+                // the other direction: one call per message on the sender, two calls on the receiver
+                let p2 = rng.bytes(5);
+                let mut w2 = p2.clone();
+                server.encrypt(&mut w2);
+                let mut e2 = p2.clone();
+                m2.xor(&mut e2);
+                let (a, b) = w2.split_at_mut(4);
+                client.decrypt(a);
+                client.decrypt(b);
+                if w2 != p2 || e2.len() != 5 {
+                    rep.violation("c09:many_small_calls:s2c", format!("message number {}: receiver using two calls per message does not recover the plaintext (key {})", c, hex(&k)), format!("stream {} {} 5 s2c", hex(&k), c));
+                    bad = true;
+                    break;
+                }
+            }
+            rep.ev(1);
+            if !bad {
+                rep.count("connections_with_70000_small_calls", 1);
+                rep.cell(&[8, 9]);
+            }
+        }
         if sh < huge {
             let k = rng.arr::<40>();
             wrath_connection(&mut rep, k, &mut rng, 40 << 20, 3);
             rep.count("huge_connections_40MiB", 1);
+        }
+        if tier == "thorough" && sh == 63 {
+            // more than 2^32 bytes per direction on one connection (both directions > 4 GiB => ~9 GiB of traffic)
+            let k = rng.arr::<40>();
+            wrath_connection(&mut rep, k, &mut rng, 9usize << 30, 5);
+            rep.count("connections_beyond_2^32_bytes", 1);
         }
         rep
     });
